@@ -1,13 +1,13 @@
 from collections import defaultdict
-from collections.abc import Callable
+from collections.abc import Callable, Iterator
 from dataclasses import dataclass, field
 from typing import cast
 
 from minimalloc import Buffer, Problem  # pyright: ignore[reportMissingTypeStubs]
 from xdsl.context import Context
-from xdsl.dialects import arith, builtin, func, llvm
+from xdsl.dialects import arith, builtin, func, llvm, memref
 from xdsl.dialects.memref import DeallocOp
-from xdsl.ir import Operation, OpResult, Sequence, SSAValue
+from xdsl.ir import Operation, OpResult, Sequence, SSAValue, Use
 from xdsl.parser import IndexType, IntegerAttr, StringAttr
 from xdsl.passes import ModulePass
 from xdsl.pattern_rewriter import (
@@ -210,6 +210,27 @@ class StaticAllocs(RewritePattern):
         rewriter.replace_op(op, ops_to_insert, created_struct.results)
 
 
+# operations that create a new view of (part of) the buffer given as their first operand
+VIEW_OPS = (
+    builtin.UnrealizedConversionCastOp,
+    memref.SubviewOp,
+    memref.CastOp,
+    memref.MemorySpaceCastOp,
+    snax.LayoutCast,
+)
+
+
+def uses_through_views(val: SSAValue) -> Iterator[Use]:
+    """
+    Returns all uses of a buffer, including the uses of subviews and casts of it.
+    """
+    for use in val.uses:
+        yield use
+        if isinstance(use.operation, VIEW_OPS) and use.index == 0:
+            for result in use.operation.results:
+                yield from uses_through_views(result)
+
+
 @dataclass
 class MiniMallocate(RewritePattern):
     """
@@ -262,14 +283,10 @@ class MiniMallocate(RewritePattern):
                 buffers.append(buffer)
                 buffer_ops[buffer.id] = op
 
-                # add uses to the use list
-                for use in op.results[0].uses:
+                # add uses to the use list, including the uses of all views of the buffer
+                for use in uses_through_views(op.results[0]):
                     use_op = get_top_level_op(use.operation)
                     uses[use_op].append(buffer)
-                    if isinstance(use.operation, builtin.UnrealizedConversionCastOp):
-                        for cast_use in use.operation.results[0].uses:
-                            cast_use_op = get_top_level_op(cast_use.operation)
-                            uses[cast_use_op].append(buffer)
 
             if op in uses:
                 # udpate lifetime of buffer
